@@ -18,7 +18,18 @@ def wall_of(d):
     return (d.replace(tzinfo=None) - EPOCH_N) // US
 
 
+class Stamp(dt.datetime):
+    """a datetime subclass, as third-party time libraries provide"""
+
+
 def build(rep):
+    d = _build(rep)
+    if d is not None and rep.get("sub"):
+        d = Stamp(d.year, d.month, d.day, d.hour, d.minute, d.second, d.microsecond, tzinfo=d.tzinfo, fold=d.fold)
+    return d
+
+
+def _build(rep):
     """rep -> datetime.  naive: local form of instant i exactly as a file store reports it (fromtimestamp, fold set)."""
     if rep is None:
         return None
